@@ -49,6 +49,11 @@ fn gen_exact(c: &mut dyn Choices, depth: u32, allow_ans: bool) -> E {
         }
         return gen_operand(c);
     }
+    if c.below(12) == 0 {
+        // a generic operand scaled down (arguments of 1e-2 … 1e-5 in modulus: small-argument shortcuts live there)
+        let k = ["0.01", "0.001", "0.0001", "0.00001", "0.00009", "0.0003"][c.below(6) as usize];
+        return gen::mk_bin(BinOp::Mul, gen_operand(c), E::Lit(k.to_string()));
+    }
     match c.below(7) {
         0 | 1 => gen::mk_bin(BinOp::Add, gen_exact(c, depth - 1, allow_ans), gen_exact(c, depth - 1, allow_ans)),
         2 => gen::mk_bin(BinOp::Sub, gen_exact(c, depth - 1, allow_ans), gen_exact(c, depth - 1, allow_ans)),
@@ -399,9 +404,9 @@ impl Prop for C08Prop {
             E::Call(n, _) => n.to_string(),
             _ => canon.clone(),
         };
-        // operands below 1e-3 in modulus get their own signature: the library's log-based inverse functions cancel there
+        // operands below 1e-6 in modulus get their own signature: the library's log-based inverse functions cancel there
         // (a recorded finding), and that must not hide other failures of the same functions
-        let canon_sig = if zs.iter().any(|z| cpxr::modulus(*z) < 1e-3) { format!("{}/tiny-operand", canon) } else { canon.clone() };
+        let canon_sig = if zs.iter().any(|z| cpxr::modulus(*z) < 1e-6) { format!("{}/tiny-operand", canon) } else { canon.clone() };
         let fail = |what: &str, want: String| Err(Failure::new(format!("complex/{}/{}", what, canon_sig), want, o.show()));
         let inverse: Option<(fn(C) -> C, fn(C) -> C)> = match canon.as_str() {
             "asin" => Some((cpxr::csin, cpxr::ccos)),
